@@ -33,28 +33,9 @@ func RuleDRecursion(c *core.Ctx) {
 		if g.Parent() != nil {
 			continue
 		}
-		// path parameter: a string parameter that flows into os.ReadFile/Open
-		pathParam := -1
-		core.EachInstr(g, func(ins ssa.Instruction) {
-			call, ok := ins.(ssa.CallInstruction)
-			if !ok {
-				return
-			}
-			callee := call.Common().StaticCallee()
-			if callee == nil || callee.Pkg == nil || callee.Pkg.Pkg.Path() != "os" {
-				return
-			}
-			switch callee.Name() {
-			case "ReadFile", "Open", "OpenFile":
-			default:
-				return
-			}
-			for i, prm := range g.Params {
-				if originSet(p, call.Common().Args[0], 0)[prm] {
-					pathParam = i
-				}
-			}
-		})
+		// path parameter: a string parameter that names a file the function reads
+		// (directly or through a helper)
+		pathParam := fileReadParam(p, g, 0)
 		if pathParam < 0 {
 			continue
 		}
@@ -195,6 +176,17 @@ func readsElementOf(p *core.Prog, co, chain map[ssa.Value]bool, prm *ssa.Paramet
 		case *ssa.Range:
 			if inChain(v.X) {
 				return true
+			}
+		case *ssa.Call:
+			// slices.Contains(chain, x), slices.Index(chain, x), a set's Has(x)
+			if callee := v.Call.StaticCallee(); callee != nil && len(v.Call.Args) >= 1 {
+				name := core.BaseName(callee)
+				if callee.Pkg != nil && callee.Pkg.Pkg.Path() == "slices" && (name == "Contains" || name == "Index" || name == "ContainsFunc" || name == "IndexFunc") && inChain(v.Call.Args[0]) {
+					return true
+				}
+				if (name == "Has" || name == "Contains") && inChain(v.Call.Args[0]) {
+					return true
+				}
 			}
 		}
 	}
